@@ -3,12 +3,33 @@
 #   VERIF_REPO=/repo (default): build in place, target dir /verif/harness-sched/target.
 #   VERIF_REPO=<other tree>   : build a path-rewritten copy under $SCHED_SCRATCH
 #                               (default /tmp/harness-sched-$MUTEST_SLOT) - /repo is never touched.
-# Prints the path of the binary on success. exit 2: hook H1 missing or build failure (machinery).
+# Prints the path of the binary on success. exit 2 (machinery, never a verdict): hook missing, the
+# subject bypasses the seam, the subject uses an API the seam lacks, or the tree does not compile.
 set -u
 HERE="$(cd "$(dirname "$0")" && pwd)"
 REPO="${VERIF_REPO:-/repo}"
-if ! grep -q 'texcraft_verif_sched' "$REPO/crates/texlang/src/command/mod.rs" 2>/dev/null || [ ! -f "$REPO/crates/texlang/src/command/verif_sync.rs" ]; then
-  echo "MACHINERY-ERROR C20: hook H1 (sync seam) is not applied to $REPO - apply /verif/hooks/H1-sync-seam.patch (git -C $REPO apply /verif/hooks/H1-sync-seam.patch); the thread-schedule engine cannot be built without it" >&2
+MOD="$REPO/crates/texlang/src/command/mod.rs"
+SEAM="$REPO/crates/texlang/src/command/verif_sync.rs"
+if ! grep -q 'texcraft_verif_sched' "$MOD" 2>/dev/null || [ ! -f "$SEAM" ]; then
+  echo "MACHINERY-ERROR C20: hook H1 (sync seam) is not applied to $REPO - apply /verif/hooks/H1-sync-seam.patch and /verif/hooks/H1b-seam-api.patch; the thread-schedule engine cannot be built without it" >&2
+  exit 2
+fi
+if ! grep -q 'fn try_acquire' "$SEAM"; then
+  echo "MACHINERY-ERROR C20: the sync seam in $REPO is the first version (no try_acquire / atomics) - apply /verif/hooks/H1b-seam-api.patch" >&2
+  exit 2
+fi
+# The seam only sees what goes through the name `sync`. A direct use of std::sync / core::sync in
+# command/mod.rs (outside the lines guarded by cfg(not(texcraft_verif_sched))) would compile under the
+# cfg but be invisible to the scheduler: its races could not be found, so no verdict may be given.
+BYPASS=$(awk '
+  /^[[:space:]]*\/\// { next }
+  { line=$0; sub(/\/\/.*$/, "", line) }
+  line ~ /(std|core)::sync/ && prev !~ /cfg\(not\(texcraft_verif_sched\)\)/ { printf "%d: %s\n", NR, $0 }
+  /[^[:space:]]/ { prev=$0 }
+' "$MOD")
+if [ -n "$BYPASS" ]; then
+  echo "MACHINERY-ERROR C20: command/mod.rs uses std::sync directly, past the sync seam (write \`sync::...\` so that the controlled scheduler sees it, or guard the line with #[cfg(not(texcraft_verif_sched))] and give it a seam twin); no verdict:" >&2
+  echo "$BYPASS" | head -n 10 >&2
   exit 2
 fi
 if [ "$REPO" = "/repo" ]; then
@@ -21,11 +42,20 @@ else
 fi
 export CARGO_NET_OFFLINE=true
 export CARGO_TARGET_DIR="$DIR/target"
-export RUSTFLAGS='--cfg texcraft_verif_sched'
 mkdir -p "$CARGO_TARGET_DIR"
-if ! (cd "$DIR" && cargo build --release --offline -q 2>"$DIR/target/build.log"); then
-  tail -n 40 "$DIR/target/build.log" >&2
-  echo "MACHINERY-ERROR C20: build of the thread-schedule engine failed" >&2
+if ! (cd "$DIR" && RUSTFLAGS='--cfg texcraft_verif_sched' cargo build --release --offline -q 2>"$DIR/target/build.log"); then
+  # Why? If texlang compiles without the cfg, the subject now uses a part of std::sync that the seam
+  # does not mirror: name it. Otherwise the tree itself is broken.
+  ERRS=$(grep -E -A6 '^error(\[E[0-9]+\])?:' "$DIR/target/build.log" | grep -v '^--$' | head -n 24)
+  if (cd "$DIR" && CARGO_TARGET_DIR="$DIR/target/nocfg" cargo check --offline -q -p texlang 2>"$DIR/target/build-nocfg.log"); then
+    MISSING=$(grep -E '^error' "$DIR/target/build.log" | grep -oE '`[^`]+`' | tr -d '`' | sort -u | head -n 8 | tr '\n' ' ')
+    echo "MACHINERY-ERROR C20: texlang compiles WITHOUT --cfg texcraft_verif_sched but not WITH it: command/mod.rs now uses a synchronisation API that the seam crates/texlang/src/command/verif_sync.rs does not provide (names in the errors: $MISSING). Extend the seam (hook H1) with that API; this is not a verdict on the property." >&2
+    echo "$ERRS" >&2
+  else
+    echo "MACHINERY-ERROR C20: build of the thread-schedule engine failed, and texlang does not compile without the cfg either (the tree is broken):" >&2
+    echo "$ERRS" >&2
+    tail -n 15 "$DIR/target/build-nocfg.log" >&2
+  fi
   exit 2
 fi
 echo "$CARGO_TARGET_DIR/release/c20-sched"
